@@ -188,6 +188,7 @@ def strhex2float(x, signed=True, n_word=None, n_frac=None, return_sizes=False):
 
 def str2num(x, signed=True, n_word=None, n_frac=None, base=10, return_sizes=False):
     if isinstance(x, (list, tuple)):
+        x = list(x)     # work on a new list: tuples are immutable and the caller's container must not be modified
         _signed_max = False
         _n_word_max = None
         _n_frac_max = None
